@@ -19,6 +19,8 @@ type Browser struct {
 	VaryPort bool
 	n        int
 	Log      []string
+	// TLS: the gateway is reached over TLS
+	TLS bool
 }
 
 func (w *World) NewBrowser(name, from string) *Browser {
@@ -57,7 +59,13 @@ func (b *Browser) Request(method, path string, extra [][2]string) *HTTPResult {
 			from = fmt.Sprintf("%s:%d", from[:i], 20000+(port+7*b.n)%40000)
 		}
 	}
-	r := b.W.Do(&HTTPReq{Name: fmt.Sprintf("%s#%d", b.Name, b.n), From: from, Method: method, Path: path, Header: hdr})
+	req := &HTTPReq{Name: fmt.Sprintf("%s#%d", b.Name, b.n), From: from, Method: method, Path: path, Header: hdr}
+	var r *HTTPResult
+	if b.TLS {
+		r = b.W.DoTLS(req, false)
+	} else {
+		r = b.W.Do(req)
+	}
 	if r.Header != nil {
 		for _, sc := range r.Header.Values("Set-Cookie") {
 			kv := strings.SplitN(strings.SplitN(sc, ";", 2)[0], "=", 2)
